@@ -50,6 +50,7 @@ pub mod klog {
     pub static mut AE: [u128; 16] = [0; 16];
     pub static mut AAE: [u128; 16] = [0; 16];
     pub static mut N: usize = 0;
+    pub static mut C: usize = 0;
 }
 /// `a` in oracle form, remembering (e, A(e), A(A(e))) (only the decryption-key derivation in `new` calls `a`).
 pub fn log_a(e: u128) -> u128 {
@@ -75,11 +76,19 @@ fn a_hinted(s: u128) -> u128 {
     unsafe {
         let ay = r::a(y);
         kani::assume(ay == s); // involution at s
-        let mut k = 0;
-        while k < 16 && k < klog::N {
-            kani::assume(r::a(y ^ klog::E[k]) == ay ^ klog::AE[k]); // linearity at (A(s), e)
-            kani::assume(r::a(y ^ klog::AE[k]) == ay ^ klog::AAE[k]); // linearity at (A(s), A(e))
-            k += 1;
+        // Which linearity instances to state is only a heuristic (every instance is valid): the c-th round-internal
+        // application of A (c = 1..N, first of the two block operations) is followed by the addition of ek_c = E[N-c]
+        // when encrypting and of dk_c = A(ek_{n-c}) = AE[c-1] when decrypting.
+        let n = klog::N;
+        let c = klog::C + 1;
+        klog::C = c;
+        if c <= n && n <= 16 {
+            let e = klog::E[n - c];
+            let ae = klog::AE[n - c];
+            kani::assume(r::a(y ^ e) == ay ^ ae); // linearity at (A(s), e)
+            let f = klog::AE[c - 1];
+            let af = klog::AAE[c - 1];
+            kani::assume(r::a(y ^ f) == ay ^ af); // linearity at (A(s), A(e))
         }
     }
     y
